@@ -1255,17 +1255,23 @@ func c20Case(c *Case, realKill bool) {
 					c.Note("real_startup_unavailable", serr)
 				} else {
 					c.Dist(fmt.Sprintf("real-startup/started=%v", started))
-					if !started {
+					if !started && !strings.Contains(slog, "Error loading") {
+						// slow machine or an unrelated start-up problem: not a statement about the crash state
+						c.Dist("real-startup/inconclusive")
+						os.RemoveAll(filepath.Dir(sdir))
+					} else if !started {
 						c.Note("crash_point", k)
 						c.Note("server_log", clip(slog))
 						c.Violation("server-does-not-start-on-crash-state", fmt.Sprintf("the real server binary does not come up on the directory left by a kill after call %d of the update", k))
 						os.RemoveAll(filepath.Dir(sdir))
 						return
 					}
-					v := c20Judge(c, c20ReadDir(sdir), scratch, job.IPs, oldV, newV, store, k, "after the real server binary's start-up")
-					os.RemoveAll(filepath.Dir(sdir))
-					if v == "" {
-						return
+					if started {
+						v := c20Judge(c, c20ReadDir(sdir), scratch, job.IPs, oldV, newV, store, k, "after the real server binary's start-up")
+						os.RemoveAll(filepath.Dir(sdir))
+						if v == "" {
+							return
+						}
 					}
 				}
 			}
